@@ -40,6 +40,7 @@ Import ListNotations.
 From TI Require Import lib.Sched model.Caches proofs.CachesProofs proofs.MemoProofs proofs.SwapProofs.
 From TI Require Import model.CachesInval proofs.InvalProofs.
 From TI Require Import model.CachesEnv proofs.EnvKeyProofs model.CachesHand proofs.HandProofs.
+From TI Require Import model.CachesArgs proofs.ArgsProofs.
 
 (** the cell size returned after any history is the fresh one for the current terminal
     size and swap setting, under the query status in force when the entry was made *)
@@ -569,3 +570,65 @@ Theorem C15_handover_refuted_copy_before_lock :
     /\ x_flag s = true /\ x_curc s = XNew /\ x_cache s (x_curc s) = Some false /\ x_answer s <> x_flag s.
 Proof. exact hand_refuted_copy_before_lock. Qed.
 Print Assumptions C15_handover_refuted_copy_before_lock.
+
+(** ** [terminal_size_cached] called with SEVERAL DISTINCT ARGUMENT TUPLES (model/CachesArgs.v)
+
+    The decorator keeps ONE slot (value, terminal size) per decorated function, whatever the
+    arguments ([utils.py:271-283]; documented: "If the terminal size is the same as for the
+    last call, the last return value is returned"); the library decorates nothing with it.
+    [abody]: argument tuple, terminal size |-> result of the wrapped function; [size_only b]:
+    the wrapped function is a function of the terminal size (what the decorator is for — a
+    decorated method is handed the instance, its result depends on the terminal).  Histories
+    over [ACall k | ACallR k t (a resize lands while the body runs) | AResize t | AInval];
+    [code_run] the decorator; [spec_ok so b t0 [] cmds rows] judges the rows of a run from the
+    history: every call returns a value (never raises), the body runs at most once per call
+    and only with the call's own arguments, and the value is — [so = true] — what a fresh
+    computation WITH ITS OWN ARGUMENTS gives for the size the call is made at, — [so = false]
+    — a value computed for THAT size with an argument tuple used since the last invalidation. *)
+
+(** freshness per argument tuple, for every history (any number of argument tuples, resizes
+    — also inside bodies —, invalidations) *)
+Theorem C15_args_fresh :
+  forall (b : abody) (t0 : tsz) (cmds : list acmd),
+    size_only b ->
+    spec_ok true b t0 nil cmds (code_run b (cinit t0) cmds) = true.
+Proof. exact args_fresh_lemma. Qed.
+Print Assumptions C15_args_fresh.
+
+(** spelt out for histories without a resize inside a body: the callers get exactly the
+    fresh computations, each with its own arguments, for the size current at the call *)
+Theorem C15_args_fresh_values :
+  forall (b : abody) (t0 : tsz) (cmds : list acmd),
+    size_only b -> aplain cmds = true ->
+    map fst (code_run b (cinit t0) cmds) = fresh_vals b t0 cmds.
+Proof. exact args_fresh_plain_lemma. Qed.
+Print Assumptions C15_args_fresh_values.
+
+(** ANY wrapped function: never a value computed for an earlier terminal size *)
+Theorem C15_args_current_size :
+  forall (b : abody) (t0 : tsz) (cmds : list acmd),
+    spec_ok false b t0 nil cmds (code_run b (cinit t0) cmds) = true.
+Proof. exact args_current_size_lemma. Qed.
+Print Assumptions C15_args_current_size.
+
+(** the excluded design — a dict keyed by the arguments with a single remembered terminal
+    size for the whole dict, not cleared when the size changes: after
+    [f(a); f(b); resize; f(a)] the call [f(b)] returns the value computed under the old size *)
+Theorem C15_args_dict_single_stamp_refuted :
+  exists (b : abody) (t0 : tsz) (cmds : list acmd),
+    size_only b /\ aplain cmds = true
+    /\ spec_ok true b t0 nil cmds (dict1_run b (dinit t0) cmds) = false
+    /\ spec_ok false b t0 nil cmds (dict1_run b (dinit t0) cmds) = false
+    /\ map fst (dict1_run b (dinit t0) cmds) <> fresh_vals b t0 cmds
+    /\ nth 4%nat (map fst (dict1_run b (dinit t0) cmds)) None = Some (b 1%nat t0).
+Proof. exact dict1_single_stamp_refuted_lemma. Qed.
+Print Assumptions C15_args_dict_single_stamp_refuted.
+
+(** why [C15_args_fresh] carries [size_only]: the code is blind to the arguments (documented) *)
+Theorem C15_args_code_argument_blind :
+  exists (b : abody) (t0 : tsz) (cmds : list acmd),
+    aplain cmds = true
+    /\ spec_ok false b t0 nil cmds (code_run b (cinit t0) cmds) = true
+    /\ spec_ok true b t0 nil cmds (code_run b (cinit t0) cmds) = false.
+Proof. exact code_argument_blind_lemma. Qed.
+Print Assumptions C15_args_code_argument_blind.
